@@ -1975,10 +1975,141 @@ void vf_slice_8()
 }
 #endif
 #if VF_IN_SLICE(9)
+namespace
+{
+// ---- narrow and mixed scalar types: the element type of a product is decltype(L * R) (int for signed char / short
+// operands), and every entry is the exact sum of products as long as that sum fits this type. Entries in [-9,9]:
+// a dot product of three terms reaches 243, beyond signed char.
+template <class T>
+char const *tn2()
+{
+  if constexpr (std::is_same_v<T, signed char>)
+    return "schar";
+  else if constexpr (std::is_same_v<T, unsigned char>)
+    return "uchar";
+  else if constexpr (std::is_same_v<T, unsigned short>)
+    return "ushort";
+  else if constexpr (std::is_same_v<T, long long>)
+    return "llong";
+  else
+    return tn<T>();
+}
+template <class Lt, class Rt, size_type R, size_type K, size_type C>
+void mixed_product(std::string const &e, std::uint64_t i)
+{
+  using res_t = decltype(std::declval<Lt>() * std::declval<Rt>());
+  vf::rng g(vf::seed_for(e, i * 131U + R * 17U + K * 5U + C));
+  long long a[R][K], b[K][C];
+  bool const nonneg = std::is_unsigned_v<Lt> || std::is_unsigned_v<Rt>;
+  fm::matrix::static_<Lt, R, K> A{fcppt::no_init{}};
+  fm::matrix::static_<Rt, K, C> B{fcppt::no_init{}};
+  std::string text;
+  for (size_type r = 0; r < R; ++r)
+    for (size_type k = 0; k < K; ++k)
+    {
+      a[r][k] = nonneg ? g.range(0, 9) : g.range(-9, 9);
+      if (g.chance(1, 3))
+        a[r][k] = a[r][k] < 0 ? -9 : 9;
+      A.storage()[r * K + k] = static_cast<Lt>(a[r][k]);
+      text += std::to_string(a[r][k]) + " ";
+    }
+  text += "| ";
+  for (size_type k = 0; k < K; ++k)
+    for (size_type c = 0; c < C; ++c)
+    {
+      b[k][c] = nonneg ? g.range(0, 9) : g.range(-9, 9);
+      if (g.chance(1, 3))
+        b[k][c] = b[k][c] < 0 ? -9 : 9;
+      B.storage()[k * C + c] = static_cast<Rt>(b[k][c]);
+      text += std::to_string(b[k][c]) + " ";
+    }
+  if (!vf::begin_case("%s x %s, %zux%zu * %zux%zu: %s", tn2<Lt>(), tn2<Rt>(), static_cast<std::size_t>(R), static_cast<std::size_t>(K),
+                      static_cast<std::size_t>(K), static_cast<std::size_t>(C), text.c_str()))
+    return;
+  vf::note_distinct(vf::hash_str(text, vf::hash_str(e) + R * 100 + K * 10 + C));
+  std::string const key = std::string("matrix*matrix<") + tn2<Lt>() + "," + tn2<Rt>() + ">";
+  auto const P = A * B;
+  using got_t = std::remove_cvref_t<decltype(P.storage()[0])>;
+  if (!std::is_same_v<got_t, res_t>)
+    vf::violation(key + "/element-type", "mismatch", "the element type of the product is not decltype(L * R)");
+  bool beyond_left = false;
+  for (size_type r = 0; r < R; ++r)
+    for (size_type c = 0; c < C; ++c)
+    {
+      long long sum = 0;
+      for (size_type k = 0; k < K; ++k)
+      {
+        sum += a[r][k] * b[k][c];
+        if (sum > static_cast<long long>(std::numeric_limits<Lt>::max()) || sum < static_cast<long long>(std::numeric_limits<Lt>::min()))
+          beyond_left = true;
+      }
+      if (static_cast<long long>(P.storage()[r * C + c]) != sum)
+      {
+        vf::violation(key + "/entry", "mismatch", "entry (" + std::to_string(r) + "," + std::to_string(c) + ") is " +
+                                                    std::to_string(static_cast<long long>(P.storage()[r * C + c])) + ", the exact sum of products is " + std::to_string(sum));
+        return;
+      }
+    }
+  VF_COUNT("mixed/matrix-products");
+  if (beyond_left)
+    VF_COUNT("mixed/partial-sum-beyond-left-element-type");
+  // matrix * vector with the same operands' first column
+  {
+    fm::vector::static_<Rt, K> v{fcppt::no_init{}};
+    for (size_type k = 0; k < K; ++k)
+      v.storage()[k] = static_cast<Rt>(b[k][0]);
+    auto const mv = A * v;
+    for (size_type r = 0; r < R; ++r)
+    {
+      long long sum = 0;
+      for (size_type k = 0; k < K; ++k)
+        sum += a[r][k] * b[k][0];
+      if (static_cast<long long>(mv.storage()[r]) != sum)
+      {
+        vf::violation(std::string("matrix*vector<") + tn2<Lt>() + "," + tn2<Rt>() + ">/entry", "mismatch",
+                      "component " + std::to_string(r) + " is " + std::to_string(static_cast<long long>(mv.storage()[r])) + ", exact " + std::to_string(sum));
+        return;
+      }
+    }
+    VF_COUNT("mixed/matrix-vector-products");
+  }
+}
+template <class Lt, class Rt>
+void mixed_pair(std::string const &e, std::uint64_t i)
+{
+  mixed_product<Lt, Rt, 2, 2, 2>(e, i);
+  mixed_product<Lt, Rt, 2, 3, 2>(e, i);
+  mixed_product<Lt, Rt, 3, 3, 3>(e, i);
+  mixed_product<Lt, Rt, 1, 4, 2>(e, i);
+}
+void mixed_scalars()
+{
+  std::string const e = "matrix/narrow-and-mixed-scalars";
+  if (!vf::entry_enabled(e))
+    return;
+  vf::set_entry(e);
+  std::uint64_t const n = vf::tier<std::uint64_t>(600, 40000);
+  for (std::uint64_t i = 0; i < n; ++i)
+  {
+    if (!vf::mine(i))
+      continue;
+    mixed_pair<signed char, signed char>(e, i);
+    mixed_pair<short, short>(e, i);
+    mixed_pair<signed char, int>(e, i);
+    mixed_pair<int, signed char>(e, i);
+    mixed_pair<short, long>(e, i);
+    mixed_pair<long, short>(e, i);
+    mixed_pair<unsigned char, unsigned char>(e, i);
+    mixed_pair<unsigned char, int>(e, i);
+    mixed_pair<int, long long>(e, i);
+  }
+}
+}
 void vf_slice_9()
 {
   builders<int, false>();
   observed();
+  mixed_scalars();
 }
 #endif
 
@@ -1998,7 +2129,8 @@ namespace
 void body()
 {
   for (char const *b :
-       {"judged/model-comparisons", "judged/identities", "judged/aliasing-operands", "m2/pairs", "m2/triples", "m2/matvec",
+       {"judged/model-comparisons", "judged/identities", "judged/aliasing-operands", "mixed/matrix-products",
+        "mixed/partial-sum-beyond-left-element-type", "mixed/matrix-vector-products", "m2/pairs", "m2/triples", "m2/matvec",
         "random/matrix-algebra-cases", "random/matrix-product-cases", "random/vector-dim-cases",
         "exhaustive/vector-dim-pairs", "builders/cases", "matrix/det/zero", "matrix/det/nonzero",
         "matrix/nonsymmetric", "matrix/noncommuting-pair", "matrix/matvec/nonzero-result", "matrix/cmp/equal",
